@@ -18,6 +18,7 @@ import (
 	"go/token"
 	"os"
 	"path/filepath"
+	"regexp"
 	"regexp/syntax"
 	"sort"
 	"strconv"
@@ -732,6 +733,75 @@ func platformToCoq(file string, tag string, p *yPlatform) (string, string) {
 	return s, joined
 }
 
+// samplePrompt draws a string from the language of a prompt pattern.  `pick(n)` makes the choices
+// (alternation branch, class member preference); pick == nil means "first choice everywhere".
+// The result is verified with Go's regexp by the caller and re-checked in Coq by the regex engine.
+func samplePrompt(r *syntax.Regexp, sb *strings.Builder, pick func(n int) int) {
+	ch := func(n int) int {
+		if pick == nil || n <= 1 {
+			return 0
+		}
+		return pick(n)
+	}
+	switch r.Op {
+	case syntax.OpLiteral:
+		for _, c := range r.Rune {
+			if r.Flags&syntax.FoldCase != 0 {
+				c = unicode.ToLower(c)
+			}
+			sb.WriteRune(c)
+		}
+	case syntax.OpCharClass:
+		prefs := []rune{'a', 'r', '1', '-', '~', '#', '>', ' ', '%', '$', '*', '+'}
+		var avail []rune
+		for _, want := range prefs {
+			for i := 0; i+1 < len(r.Rune); i += 2 {
+				if r.Rune[i] <= want && want <= r.Rune[i+1] {
+					avail = append(avail, want)
+					break
+				}
+			}
+		}
+		if len(avail) == 0 && len(r.Rune) > 0 {
+			avail = []rune{r.Rune[0]}
+		}
+		if len(avail) > 0 {
+			sb.WriteRune(avail[ch(len(avail))])
+		}
+	case syntax.OpAnyCharNotNL, syntax.OpAnyChar:
+		sb.WriteRune([]rune{'x', '~', ' '}[ch(3)])
+	case syntax.OpCapture:
+		samplePrompt(r.Sub[0], sb, pick)
+	case syntax.OpStar, syntax.OpPlus, syntax.OpQuest, syntax.OpRepeat:
+		n := 0
+		switch r.Op {
+		case syntax.OpPlus:
+			n = 1 + ch(2)
+		case syntax.OpRepeat:
+			n = r.Min
+			if n == 0 && r.Max > 1 {
+				n = 1
+			}
+			if r.Max < 0 || r.Max > n {
+				n += ch(2)
+			}
+		case syntax.OpStar:
+			if r.Sub[0].Op == syntax.OpCharClass && len(r.Sub[0].Rune) > 4 {
+				n = 1
+			}
+		}
+		for i := 0; i < n; i++ {
+			samplePrompt(r.Sub[0], sb, pick)
+		}
+	case syntax.OpConcat:
+		for _, x := range r.Sub {
+			samplePrompt(x, sb, pick)
+		}
+	case syntax.OpAlternate:
+		samplePrompt(r.Sub[ch(len(r.Sub))], sb, pick)
+	}
+}
+
 // ------------------------------------------------------------------------------------------------
 
 type fpEntry struct {
@@ -1037,6 +1107,8 @@ func main() {
 	sort.Strings(files)
 	var fileNames []string
 	var pdefs []string
+	var promptTbl []string
+	promptsJSON := map[string]map[string]string{}
 	for _, f := range files {
 		base := strings.TrimSuffix(filepath.Base(f), ".yaml")
 		fileNames = append(fileNames, base)
@@ -1050,6 +1122,87 @@ func main() {
 		}
 		if d.Default == nil {
 			d.Default = &yPlatform{}
+		}
+		// canonical prompts of the default definition's levels
+		{
+			keys := make([]string, 0, len(d.Default.Levels))
+			for k := range d.Default.Levels {
+				keys = append(keys, k)
+			}
+			sort.Strings(keys)
+			var entries []string
+			promptsJSON[base] = map[string]string{}
+			for _, k := range keys {
+				l := d.Default.Levels[k]
+				if l == nil {
+					continue
+				}
+				pr, err := syntax.Parse(l.Pattern, syntax.Perl)
+				if err != nil {
+					die("platform %s level %s: pattern does not parse: %v", base, k, err)
+				}
+				re, err := regexp.Compile(l.Pattern)
+				if err != nil {
+					die("platform %s level %s: pattern does not compile: %v", base, k, err)
+				}
+				// candidates: the first-choice sample plus pseudo-random ones; keep the one that the
+				// fewest OTHER levels also accept (a witness that identifies the level when one exists)
+				best, bestScore := "", 1<<30
+				for seed := 0; seed < 96; seed++ {
+					var pick func(n int) int
+					if seed > 0 {
+						st := uint32(seed)*2654435761 + 12345
+						pick = func(n int) int {
+							st = st*1664525 + 1013904223
+							return int((st >> 16) % uint32(n))
+						}
+					}
+					var sb strings.Builder
+					samplePrompt(pr, &sb, pick)
+					cand := sb.String()
+					if !re.MatchString(cand) || strings.ContainsAny(cand, "\r") {
+						continue
+					}
+					bad := false
+					for _, nc := range l.NotContains {
+						if strings.Contains(cand, nc) {
+							bad = true
+						}
+					}
+					if bad {
+						continue
+					}
+					score := 0
+					for k2, l2 := range d.Default.Levels {
+						if k2 == k || l2 == nil {
+							continue
+						}
+						r2, e2 := regexp.Compile(l2.Pattern)
+						if e2 != nil || !r2.MatchString(cand) {
+							continue
+						}
+						hit := false
+						for _, nc := range l2.NotContains {
+							if strings.Contains(cand, nc) {
+								hit = true
+							}
+						}
+						if !hit {
+							score++
+						}
+					}
+					if score < bestScore || (score == bestScore && (len(cand) < len(best) || (len(cand) == len(best) && cand < best))) {
+						best, bestScore = cand, score
+					}
+				}
+				if bestScore == 1<<30 {
+					die("platform %s level %s: could not derive a canonical prompt from %q", base, k, l.Pattern)
+				}
+				cand := best
+				entries = append(entries, fmt.Sprintf("(%s, %s)", coqBytes(k), coqBytes(cand)))
+				promptsJSON[base][k] = cand
+			}
+			promptTbl = append(promptTbl, fmt.Sprintf("(%s, [%s])", coqBytes(base), strings.Join(entries, "; ")))
 		}
 		ds, dj := platformToCoq(base, "default", d.Default)
 		vkeys := make([]string, 0, len(d.Variants))
@@ -1082,6 +1235,7 @@ func main() {
 	}
 	p("Definition regex_table : list (bytes * re) :=\n  [%s].", strings.Join(tbl, ";\n   "))
 	p("Definition platform_defs : list platform_def := [\n%s].", strings.Join(pdefs, ";\n"))
+	p("Definition platform_prompts : list (bytes * list (bytes * bytes)) := [\n  %s].", strings.Join(promptTbl, ";\n  "))
 	// fingerprints
 	var fps []fpEntry
 	for _, m := range modelled {
@@ -1100,7 +1254,7 @@ func main() {
 	if *inv != "" {
 		_ = os.MkdirAll(filepath.Dir(*inv), 0o755)
 		j, _ := json.MarshalIndent(map[string]interface{}{"fingerprints": fps, "regexes": regexes,
-			"advertised": names, "files": fileNames, "option_constructors": ctorNames}, "", " ")
+			"advertised": names, "files": fileNames, "option_constructors": ctorNames, "platform_prompts": promptsJSON}, "", " ")
 		_ = os.WriteFile(*inv, j, 0o644)
 	}
 }
